@@ -1,6 +1,7 @@
 #!/bin/sh
 # tools/seedcheck.sh <patch.diff> <prop> [<prop>...]: apply the patch to /repo, run the checks, revert.
 P=$1; shift
+export GOVC_EVIDENCE_DIR=/tmp/seed-evidence; mkdir -p $GOVC_EVIDENCE_DIR
 git -C /repo diff --quiet || { echo "repo dirty"; exit 2; }
 git -C /repo apply "$P" || { echo "patch does not apply"; exit 2; }
 for prop in "$@"; do
